@@ -371,9 +371,13 @@ Step(s) ==
             LET s1 == Sys([r EXCEPT !.ctx.st = "idle", !.idue = @ \ {<<"", "tick">>}], "CTX_STOPPED", "ctx")
             IN Push(Push(s1, Fr("lstop2", NoMod, r.ctx.gen, r.ctx.qcode)), Fr("flush", NoMod, 0, RegSeq(s1)))
       [] f.k = "flush" ->        \* flush_pubsub_msgs for each module: RUNNING gets everything in one invocation, others lose it
-            IF f.b = <<>> THEN r
-            ELSE LET x == Head(f.b)
-                     rest == Push(r, [f EXCEPT !.b = Tail(f.b)])
+            \* (the module table changed under the pass - the module visited last is still there but the number of modules is another one:
+            \* the pass starts over on the table as it is now; modules flushed already have nothing left unless they were sent something since)
+            LET changed == f.m # NoMod /\ f.m \in Registered(r) /\ f.a # Cardinality(Registered(r))
+                fb == IF changed THEN RegSeq(r) ELSE f.b IN
+            IF fb = <<>> THEN r
+            ELSE LET x == Head(fb)
+                     rest == Push(r, [f EXCEPT !.b = Tail(fb), !.m = x, !.a = Cardinality(Registered(r))])
                      ms == [i \in 1..Len(r.mod[x].pipe) |-> BindUd(r, x, r.mod[x].pipe[i])]
                      pills == {i \in 1..Len(ms) : ms[i].topic = "PILL"}
                      k == IF pills = {} THEN 0 ELSE CHOOSE i \in pills : \A j \in pills : i <= j
